@@ -329,8 +329,17 @@ def run(R):
                 "a ready Value is not delivered as a fresh ConstFuture(%s.value) on every path (shared / memoised futures confuse payloads that are equal but "
                 "not identical)" % fv, scfg_.fmt_path(p) if p else None)
     # VALUE-FLOW in _send_inner
-    calls = [c for c in q.calls(si.node) if q.call_name(c) == "self._get_one_value"]
-    R.need(len(calls) == 1 and isinstance(calls[0].args[0], ast.Name), "idiom: _send_inner does not call _get_one_value(<name>) once")
+    calls = [c for c in q.calls(si.node) if q.call_name(c) in ("self._get_one_value", "self.generator.send")]
+    R.need(len(calls) == 1 and calls[0].args and isinstance(calls[0].args[0], ast.Name), "idiom: _send_inner does not advance the generator (_get_one_value / generator.send of <name>) exactly once")
+    if q.call_name(calls[0]) == "self.generator.send":
+        # the helper written out: then the exhaustion bookkeeping is _send_inner's own business
+        sicfg0 = cfg_of(si)
+        hs0 = [n for n in sicfg0.nodes if n.kind == "except" and n.ast.type is not None and q.src(n.ast.type) == "StopIteration"]
+        sets0 = [n for n in kit.store_nodes(si, "is_stopped") if isinstance(n.ast, ast.Assign) and q.const_value(n.ast.value) is True]
+        p0 = sicfg0.find_path(hs0, [sicfg0.exit, sicfg0.raise_exit], N, cut_nodes=sets0) if hs0 else "no handler"
+        R.check(p0 is None and sets0, "C17.STOP-FLAG", si.qualname + ":direct-send", R.site(si, calls[0]),
+                "_send_inner steps the generator itself and records its exhaustion (is_stopped) in the StopIteration handler",
+                "_send_inner steps the generator itself but can leave the StopIteration handler without setting is_stopped: an exhausted generator is advanced again")
     argname = calls[0].args[0].id
     ys = [n for n in q.scope_nodes(si.node) if isinstance(n, ast.Yield)]
     R.need(len(ys) >= 2, "idiom: _send_inner has fewer than two yields")
